@@ -10,7 +10,7 @@ from pyvc import scene as scn
 from props import api
 
 
-def verify_contract(eng, prover, pid, base, fi, contract, st, args, kwargs=None, assume=(), reach=()):
+def verify_contract(eng, prover, pid, base, fi, contract, st, args, kwargs=None, assume=(), reach=(), path_hook=None):
     """`reach`: vacuity guards - (label, fn(pre, post, result) -> z3 Bool) pairs; each must be satisfiable together
     with the path condition of at least one exit path (obligation `reachable:<label>`)."""
     kwargs = kwargs or {}
@@ -49,6 +49,8 @@ def verify_contract(eng, prover, pid, base, fi, contract, st, args, kwargs=None,
             guards.append(g)
         ctx = {"path": n, "outcome": kind}
         prover.goal(f"{pid}/def:{base}/covered:{kind}-exit-allowed", x, smt.or_(guards), info=ctx)
+        if path_hook is not None:
+            path_hook(x, res, ctx)
         # modularity: the preconditions of the callees used inside the body hold at their call sites
         for e in x.events:
             if e[0] == "requires":
@@ -149,6 +151,34 @@ DEF_FUNCS = {
 NOT_YET = {}     # (kind -> function names whose definition obligations are not generated; none at present)
 
 
+def update_validates_before_store(prover, base, s, flag):
+    """C11 inside `_update` (the entry point of reset / update / every load): on every path, a value stored into the
+    receiver's container (item assignment; append / extend go through the public methods, which validate themselves)
+    was validated by the receiver EARLIER on that path - unless the caller passed `_validate=True` ("already validated",
+    which is the callee-requires clause C11:prevalidated-data-admissible at the call sites)."""
+    def hook(x, res, ctx):
+        validated = [(i, e) for i, e in enumerate(x.events) if e[0] == "validated" and e[1] == s.self_.addr]
+        for i, e in enumerate(x.events):
+            if e[0] != "cell-write" or e[1] != s.self_.addr or e[2] not in api.STORE_ARG:
+                continue
+            vals = e[6] if len(e) > 6 else ()
+            idx = api.STORE_ARG[e[2]]
+            if idx >= len(vals):
+                continue
+            v = vals[idx]
+            src = v.meta.get("fb_src") if isinstance(v, Z) else None
+            if src is None:
+                src = to_val(v)
+            ok = any(j < i and api.contains_term(ev[2], src) for j, ev in validated)
+            name = f"C11/def:{base}/protocol:stored-value-validated-or-prevalidated"
+            if ok:
+                prover.structural(name, True, x, dict(ctx, op=e[2]))
+            else:
+                # not validated on this path: only admissible when the caller vouched for the data
+                prover.goal(name, x, api.as_bool(flag), info=dict(ctx, op=e[2]))
+    return hook
+
+
 def run_task(eng, prover, task, out):
     pid = task["props"][0]
     P = eng.P
@@ -208,12 +238,18 @@ def run_task(eng, prover, task, out):
             bobj = as_int(st.rec(rrec.fields["buffered"]).fields["_count"])
             bctx = as_int(st.rec(st.statics[(rrec.cls.name, "_buffer_context")]).fields["_count"])
             assume.append(z3.Or(bobj > 0, bctx > 0))
+        hook = None
+        if fname == "_update" and pid == "C11":
+            hook = update_validates_before_store(prover, base, s, args[2])
+        eng.iteration_hooks = [lambda y, hook=hook: hook(y, None, {"path": "loop-iteration"})] if hook else []
         try:
-            n = verify_contract(eng, prover, pid, base, fi, contract, st, args, kwargs, assume=assume)
+            n = verify_contract(eng, prover, pid, base, fi, contract, st, args, kwargs, assume=assume, path_hook=hook)
             out["paths"] += n
             out["functions"][fi.qualname] = fi.sha()
         except Unsupported as e:
             out["unsupported"].append({"instance": f"{task['cname']}.{fname}/{task['role']}", "reason": str(e)})
+        finally:
+            eng.iteration_hooks = []
     for q in list(eng.inlined) + list(eng.used_contracts):
         f = api.find_function(eng, q)
         if f is not None:
